@@ -159,6 +159,8 @@ ExecPar(t, path, s, env) ==
           [p[2] EXCEPT !.circ = w.circ, !.res = w.res,
                        !.data = IF "par" \in env.l2 THEN [w.data EXCEPT !.im = s.data.im, !.fm = s.data.fm] ELSE w.data]
 
+\* observed error of block i (calculate_error_bound); an observation with fewer block entries is judged by the shape clauses
+BErr(env, i) == IF i <= Len(env.berr) THEN Norm(env.berr[i][1], env.berr[i][2]) ELSE <<0, 1>>
 ExecFE(t, path, s, env) ==
   LET cf == t.a[1]  rf == t.a[2]  calc == (t.a[3] = 1)
       sel == SelectSeq([j \in 1..Len(s.circ) |-> j], LAMBDA j : Collect(cf, s.circ[j]))
@@ -189,7 +191,7 @@ ExecFE(t, path, s, env) ==
       newop(i) == Block(s.circ[sel[i]].loc, R[i].circ)
       circ2 == [j \in 1..Len(s.circ) |->
                   IF \E i \in 1..m : sel[i] = j /\ flags[i] THEN newop(CHOOSE i \in 1..m : sel[i] = j) ELSE s.circ[j]]
-      bd == TLCEval([i \in 1..m |-> [dat |-> IF calc THEN [R[i].data EXCEPT !.err = Norm(env.berr[i][1], env.berr[i][2])] ELSE R[i].data,
+      bd == TLCEval([i \in 1..m |-> [dat |-> IF calc THEN [R[i].data EXCEPT !.err = BErr(env, i)] ELSE R[i].data,
                              rep |-> flags[i]]])
       esum == LET RECURSIVE S(_) S(i) == IF i = 0 THEN <<0, 1>> ELSE IF flags[i] THEN RAdd(S(i - 1), bd[i].dat.err) ELSE S(i - 1) IN S(m)
   IN [a[2] EXCEPT !.circ = circ2,
